@@ -56,6 +56,8 @@ pub struct IrEmitter<'a> {
     needs_tokio: bool,
     /// Whether axum web framework is needed
     needs_axum: bool,
+    /// Test mode: the function to mark with `#[test]` (set by `incan test` for the selected test function)
+    test_function: Option<String>,
     /// Function registry for call-site type checking
     function_registry: &'a FunctionRegistry,
     /// Track struct derives for generating serde methods in impl blocks
@@ -96,6 +98,7 @@ impl<'a> IrEmitter<'a> {
             needs_serde: false,
             needs_tokio: false,
             needs_axum: false,
+            test_function: None,
             function_registry,
             struct_derives: std::collections::HashMap::new(),
             current_function_return_type: RefCell::new(None),
@@ -153,6 +156,11 @@ impl<'a> IrEmitter<'a> {
     /// Set whether axum is needed.
     pub fn set_needs_axum(&mut self, needs: bool) {
         self.needs_axum = needs;
+    }
+
+    /// Test mode: mark the named function with `#[test]` so that `cargo test` in the generated project runs it.
+    pub fn set_test_function(&mut self, name: Option<String>) {
+        self.test_function = name;
     }
 
     /// Escape Rust keywords by adding `r#` prefix.
